@@ -19,14 +19,22 @@ import (
 	"bytes"
 	"context"
 	"fmt"
+	"hash"
 	"io"
 	"sort"
+	"strings"
 	"sync"
 
 	"github.com/gauss-project/aurorafs/pkg/boson"
+	"github.com/gauss-project/aurorafs/pkg/encryption"
 	"github.com/gauss-project/aurorafs/pkg/file"
 	"github.com/gauss-project/aurorafs/pkg/file/joiner"
+	"github.com/gauss-project/aurorafs/pkg/file/pipeline"
 	"github.com/gauss-project/aurorafs/pkg/file/pipeline/builder"
+	encw "github.com/gauss-project/aurorafs/pkg/file/pipeline/encryption"
+	"github.com/gauss-project/aurorafs/pkg/file/pipeline/feeder"
+	"github.com/gauss-project/aurorafs/pkg/file/pipeline/hashtrie"
+	"github.com/gauss-project/aurorafs/pkg/file/pipeline/store"
 	"github.com/gauss-project/aurorafs/pkg/localstore"
 	"github.com/gauss-project/aurorafs/pkg/logging"
 	"github.com/gauss-project/aurorafs/pkg/shed"
@@ -84,13 +92,20 @@ type jop struct {
 }
 
 type jcase struct {
-	Size  int    `json:"size"`
-	DSeed uint64 `json:"dseed"`
-	Store string `json:"store"` // map | mock | localstore
-	Feed  bool   `json:"feed"`  // through builder.FeedPipeline instead of direct Write calls
-	Cuts  []int  `json:"cuts"`
-	Ops   []jop  `json:"ops"`
-	All   bool   `json:"readall"`
+	Kind  string  `json:"kind,omitempty"` // "" (real pipeline) | enctoy
+	Chunk int     `json:"chunk,omitempty"`
+	Br    int     `json:"br,omitempty"`
+	HS    int     `json:"hs,omitempty"`
+	KL    int     `json:"kl,omitempty"`
+	Segs  [][]int `json:"segs,omitempty"`
+	Size  int     `json:"size"`
+	DSeed uint64  `json:"dseed"`
+	Store string  `json:"store"` // map | mock | localstore
+	Feed  bool    `json:"feed"`  // through builder.FeedPipeline instead of direct Write calls
+	Enc   bool    `json:"enc"`   // encrypted pipeline (64-byte reference)
+	Cuts  []int   `json:"cuts"`
+	Ops   []jop   `json:"ops"`
+	All   bool    `json:"readall"`
 }
 
 // reader that hands out the content in the given piece sizes
@@ -156,7 +171,7 @@ func main() {
 			ms = newMapStore()
 			st = ms
 		}
-		p := builder.NewPipelineBuilder(ctx, st, storage.ModePutUpload, false)
+		p := builder.NewPipelineBuilder(ctx, st, storage.ModePutUpload, jc.Enc)
 		var root boson.Address
 		var err error
 		pk, pm := hx.Guard(func() {
@@ -181,7 +196,7 @@ func main() {
 			sum, err = p.Sum()
 			root = boson.NewAddress(sum)
 		})
-		key := fmt.Sprintf("%d|%d|%s|%v|%v|%v", jc.Size, jc.DSeed, jc.Store, jc.Feed, jc.Cuts, jc.Ops)
+		key := fmt.Sprintf("%d|%d|%s|%v|%v|%v|%v", jc.Size, jc.DSeed, jc.Store, jc.Feed, jc.Enc, jc.Cuts, jc.Ops)
 		run.OracleChecked(1)
 		if pk || err != nil {
 			run.AddCase("", jc, key, false)
@@ -333,7 +348,10 @@ func main() {
 			}
 		}
 		coq := ""
-		if toCoq && ms != nil {
+		if jc.Enc && len(root.Bytes()) != 64 {
+			run.Violate(hx.Violation{Sig: "enc:reference-length", Detail: fmt.Sprintf("encrypted upload returned a %d-byte reference", len(root.Bytes())), Case: jc})
+		}
+		if toCoq && ms != nil && !jc.Enc {
 			keys := append([]string{}, ms.order...)
 			sort.Strings(keys)
 			el := make([]string, len(keys))
@@ -345,6 +363,9 @@ func main() {
 		run.AddCase(coq, jc, key, nontrivial)
 		run.Hist(fmt.Sprintf("chunks=%d", bucket((jc.Size+CS-1)/CS)))
 		run.Hist("store=" + jc.Store)
+		if jc.Enc {
+			run.Hist("encrypted")
+		}
 		run.Hist(fmt.Sprintf("writes~%d", bucket(len(jc.Cuts))))
 		if jc.Feed {
 			run.Hist("via=FeedPipeline")
@@ -356,7 +377,11 @@ func main() {
 		if err := run.ReadReplay(&jc); err != nil {
 			panic(err)
 		}
-		doCase(jc, jc.Size <= 300 && jc.Store == "map")
+		if jc.Kind == "enctoy" {
+			doEncToy(run, jc)
+		} else {
+			doCase(jc, jc.Size <= 300 && jc.Store == "map" && !jc.Enc)
+		}
 		run.Finish()
 		return
 	}
@@ -499,14 +524,302 @@ func main() {
 			if sz > 12*CS && stn == "localstore" && !run.Thorough() {
 				stn = "map"
 			}
-			doCase(jcase{Size: sz, DSeed: r.U64(), Store: stn, Feed: r.Chance(1, 3), Cuts: genCuts(sz), Ops: genOps(sz, 6+r.Intn(6), true), All: rep == 0}, false)
+			doCase(jcase{Size: sz, DSeed: r.U64(), Store: stn, Feed: r.Chance(1, 3), Enc: rep%2 == 1 && (sz <= 10*CS || run.Thorough()), Cuts: genCuts(sz), Ops: genOps(sz, 6+r.Intn(6), true), All: rep == 0 || r.Chance(1, 3)}, false)
 		}
+	}
+	// encrypted, small and boundary sizes
+	for _, sz := range []int{0, 1, 31, 32, 33, 4096, CS - 1, CS, CS + 1, 2*CS + 1} {
+		doCase(jcase{Size: sz, DSeed: r.U64(), Store: stores[r.Intn(3)], Feed: r.Chance(1, 3), Enc: true, Cuts: genCuts(sz), Ops: genOps(sz, 5+r.Intn(5), sz > CS), All: true}, false)
+	}
+	// ---- encrypted uploads at toy parameters (Coq correspondence)
+	for i := 0; i < run.N(60, 600); i++ {
+		hs := 1 + r.Intn(3)
+		kl := 1 + r.Intn(3)
+		br := 2 + r.Intn(3)
+		chunk := (hs + kl) * br
+		var chunks int
+		switch r.Intn(4) {
+		case 0:
+			chunks = r.Intn(6)
+		case 1:
+			k := 1 + r.Intn(3)
+			chunks = pow(br, k) + r.Intn(3) - 1
+		case 2:
+			k := 1 + r.Intn(2)
+			chunks = pow(br, k)*(1+r.Intn(br)) + r.Intn(br+1)
+		default:
+			chunks = r.Intn(40)
+		}
+		if chunks > 70 {
+			chunks = 70
+		}
+		n := chunks * chunk
+		if chunks > 0 {
+			switch r.Intn(3) {
+			case 0:
+				n -= r.Intn(chunk)
+			case 1:
+				n += r.Intn(2)
+			}
+		}
+		jc := jcase{Kind: "enctoy", Chunk: chunk, Br: br, HS: hs, KL: kl, Size: n, DSeed: r.U64() & 0xffffffff}
+		jc.Segs = append(jc.Segs, []int{n})
+		for k := 1; k < run.N(2, 4); k++ {
+			jc.Segs = append(jc.Segs, genCutsToy(r, n, chunk))
+		}
+		doEncToy(run, jc)
 	}
 	for i := 0; i < run.N(12, 150); i++ {
 		sz := r.Intn(6 * CS)
 		doCase(jcase{Size: sz, DSeed: r.U64(), Store: stores[r.Intn(3)], Feed: r.Chance(1, 3), Cuts: genCuts(sz), Ops: genOps(sz, 6+r.Intn(6), true), All: r.Chance(1, 3)}, false)
 	}
 	run.Finish()
+}
+
+// ---------------------------------------------------------------- encrypted toy pipeline
+
+func pow(b, k int) int {
+	p := 1
+	for i := 0; i < k; i++ {
+		p *= b
+	}
+	return p
+}
+
+func genCutsToy(r *hx.Rand, n, cs int) []int {
+	var cuts []int
+	left := n
+	style := r.Intn(4)
+	for left > 0 {
+		var c int
+		switch style {
+		case 0:
+			c = 1 + r.Intn(3)
+		case 1:
+			c = cs - 1 + r.Intn(3)
+		case 2:
+			c = cs*(1+r.Intn(3)) + r.Intn(cs+1)
+		default:
+			c = r.Intn(2*cs + 2)
+		}
+		if c > left {
+			c = left
+		}
+		if c < 0 {
+			c = 0
+		}
+		cuts = append(cuts, c)
+		left -= c
+	}
+	if r.Chance(1, 4) {
+		cuts = append(cuts, 0)
+	}
+	return cuts
+}
+
+// keystream toy hash (mirrors ktoy_hash in C01/Corr.v; same function as harness c08)
+type ktoy struct {
+	buf []byte
+	n   int
+}
+
+func (t *ktoy) Write(p []byte) (int, error) { t.buf = append(t.buf, p...); return len(p), nil }
+func (t *ktoy) Sum(b []byte) []byte {
+	a := uint32(7)
+	for _, x := range t.buf {
+		a = a*131 + uint32(x) + 1
+	}
+	out := make([]byte, t.n)
+	for j := range out {
+		out[j] = byte(((a + uint32(j)*2654435761) * 1029) >> 16)
+	}
+	return append(b, out...)
+}
+func (t *ktoy) Reset()         { t.buf = t.buf[:0] }
+func (t *ktoy) Size() int      { return t.n }
+func (t *ktoy) BlockSize() int { return 1 }
+
+// chunk toy hash (mirrors toy_hash in C02/Corr.v)
+func toyChunkHash(refLen int, data []byte) []byte {
+	s := uint32(2166136261)
+	for _, x := range data {
+		s = s*16777619 + uint32(x) + 1
+	}
+	out := make([]byte, refLen)
+	for i := range out {
+		s = s*1103515245 + 12345
+		out[i] = byte(s >> 16)
+	}
+	return out
+}
+
+type toyHashStage struct {
+	n    int
+	next pipeline.ChainWriter
+}
+
+func (t *toyHashStage) ChainWrite(p *pipeline.PipeWriteArgs) error {
+	if len(p.Data) < boson.SpanSize {
+		return fmt.Errorf("toy: invalid data")
+	}
+	p.Ref = toyChunkHash(t.n, p.Data)
+	return t.next.ChainWrite(p)
+}
+func (t *toyHashStage) Sum() ([]byte, error) { return t.next.Sum() }
+
+// chunk_encryption.go's EncryptChunk at a toy chunk size, on the REAL encryption.New
+type toyEncrypter struct {
+	chunk, refsize, kl int
+	fn                 func() hash.Hash
+	r                  *hx.Rand
+	keys, pads         [][]byte
+}
+
+func (e *toyEncrypter) EncryptChunk(chunkData []byte) (encryption.Key, []byte, []byte, error) {
+	key := e.r.Bytes(e.kl)
+	es, err := encryption.New(key, 0, uint32(e.chunk/e.refsize), e.fn).Encrypt(chunkData[:8])
+	if err != nil {
+		return nil, nil, nil, err
+	}
+	ed, err := encryption.New(key, e.chunk, 0, e.fn).Encrypt(chunkData[8:])
+	if err != nil {
+		return nil, nil, nil, err
+	}
+	e.keys = append(e.keys, key)
+	e.pads = append(e.pads, append([]byte{}, ed[len(chunkData)-8:]...)) // the random padding lies unencrypted after the payload
+	return key, es, ed, nil
+}
+
+type recPut struct {
+	mu    sync.Mutex
+	datas [][]byte
+}
+
+func (r *recPut) Put(_ context.Context, _ storage.ModePut, chs ...boson.Chunk) ([]bool, error) {
+	r.mu.Lock()
+	defer r.mu.Unlock()
+	for _, c := range chs {
+		r.datas = append(r.datas, append([]byte{}, c.Data()...))
+	}
+	return make([]bool, len(chs)), nil
+}
+
+func lcgData(n int, seed uint32) []byte {
+	out := make([]byte, n)
+	x := seed
+	for i := range out {
+		x = x*1664525 + 1013904223
+		out[i] = byte(x >> 24)
+	}
+	return out
+}
+
+func digStep(mul uint32, s uint32, chunk []byte) uint32 {
+	s = s*31 + uint32(len(chunk)) + 7
+	for _, x := range chunk {
+		s = s*mul + uint32(x) + 1
+	}
+	return s
+}
+
+func coqNs(vs []int) string {
+	if len(vs) == 0 {
+		return "(@nil N)"
+	}
+	el := make([]string, len(vs))
+	for i, v := range vs {
+		el[i] = fmt.Sprint(v)
+	}
+	return "[" + strings.Join(el, ";") + "]%N"
+}
+
+func doEncToy(run *hx.Run, jc jcase) {
+	ctx := context.Background()
+	data := lcgData(jc.Size, uint32(jc.DSeed))
+	refsize := jc.HS + jc.KL
+	var obs []string
+	for si, cuts := range jc.Segs {
+		put := &recPut{}
+		te := &toyEncrypter{chunk: jc.Chunk, refsize: refsize, kl: jc.KL, fn: func() hash.Hash { return &ktoy{n: jc.KL + 1} }, r: hx.NewRand(jc.DSeed*31 + uint64(si))}
+		short := func() pipeline.ChainWriter {
+			return encw.NewEncryptionWriter(te, &toyHashStage{n: jc.HS, next: store.NewStoreWriter(ctx, put, storage.ModePutUpload, nil)})
+		}
+		tw := hashtrie.NewHashTrieWriter(jc.Chunk, jc.Br, refsize, short)
+		main := encw.NewEncryptionWriter(te, &toyHashStage{n: jc.HS, next: store.NewStoreWriter(ctx, put, storage.ModePutUpload, tw)})
+		f := feeder.NewChunkFeederWriter(jc.Chunk, main)
+		var rets []int64
+		var root []byte
+		var err error
+		one := jcase{Kind: "enctoy", Chunk: jc.Chunk, Br: jc.Br, HS: jc.HS, KL: jc.KL, Size: jc.Size, DSeed: jc.DSeed, Segs: [][]int{cuts}}
+		pk, pm := hx.Guard(func() {
+			off := 0
+			for _, c := range cuts {
+				var n int
+				n, err = f.Write(data[off : off+c])
+				if err != nil {
+					return
+				}
+				rets = append(rets, int64(n))
+				off += c
+			}
+			root, err = f.Sum()
+		})
+		if pk {
+			run.Violate(hx.Violation{Sig: "enctoy:panic", Detail: pm, Case: one})
+			continue
+		}
+		ec := uint64(0)
+		if err != nil {
+			switch err.Error() {
+			case "inconsistent references":
+				ec = 1
+			case "trie full":
+				ec = 2
+			default:
+				ec = 99
+			}
+		}
+		res := "(inr " + hx.CoqBytes(root) + ")"
+		if ec != 0 {
+			res = "(inl " + hx.CoqN(ec) + ")"
+		}
+		retsEq := len(rets) == len(cuts)
+		for i := range cuts {
+			if retsEq && rets[i] != int64(cuts[i]) {
+				retsEq = false
+			}
+		}
+		rs := "None"
+		if !retsEq {
+			rs = hx.CoqSome(hx.CoqZList(rets))
+		}
+		s1, s2 := uint32(1), uint32(2)
+		for _, c := range put.datas {
+			s1 = digStep(16777619, s1, c)
+			s2 = digStep(2654435761, s2, c)
+		}
+		obs = append(obs, hx.CoqApp("mkEO", coqNs(cuts), hx.CoqBytesList(te.keys), hx.CoqBytesList(te.pads), rs,
+			hx.CoqTuple(hx.CoqN(uint64(len(put.datas))), hx.CoqN(uint64(s1)), hx.CoqN(uint64(s2))), res))
+		// oracle: within capacity the upload succeeds, returns a reference of hs+kl bytes, every stored chunk has 8+chunk bytes
+		nchunks := (jc.Size + jc.Chunk - 1) / jc.Chunk
+		if nchunks <= pow(jc.Br, 7) {
+			run.OracleChecked(2)
+			if ec != 0 {
+				run.Violate(hx.Violation{Sig: "enctoy:error-within-capacity", Detail: err.Error(), Case: one})
+			} else if len(root) != refsize {
+				run.Violate(hx.Violation{Sig: "enctoy:reference-length", Detail: fmt.Sprintf("reference of %d bytes, want %d", len(root), refsize), Case: one})
+			}
+			for _, c := range put.datas {
+				if len(c) != 8+jc.Chunk {
+					run.Violate(hx.Violation{Sig: "enctoy:stored-chunk-length", Detail: fmt.Sprintf("stored chunk of %d bytes, want %d", len(c), 8+jc.Chunk), Case: one})
+					break
+				}
+			}
+		}
+		run.Hist(fmt.Sprintf("enctoy.br=%d", jc.Br))
+	}
+	coq := hx.CoqApp("CEncUp", hx.CoqN(uint64(jc.Chunk)), hx.CoqN(uint64(refsize)), hx.CoqNat(jc.HS), hx.CoqNat(jc.KL+1), hx.CoqN(jc.DSeed), hx.CoqNat(jc.Size), hx.CoqList(obs, "enc_obs"))
+	run.AddCase(coq, jc, fmt.Sprintf("enctoy|%d|%d|%d|%d|%d|%d|%v", jc.Chunk, jc.Br, jc.HS, jc.KL, jc.Size, jc.DSeed, jc.Segs), jc.Size > jc.Chunk)
 }
 
 func bucket(n int) int {
